@@ -39,6 +39,8 @@ class Sandbox:
             rc, so, se, hung = p.returncode, p.stdout.decode("utf-8", "replace"), p.stderr.decode("utf-8", "replace"), False
         except subprocess.TimeoutExpired as ex:
             rc, so, se, hung = None, (ex.stdout or b"").decode("utf-8", "replace"), (ex.stderr or b"").decode("utf-8", "replace"), True
+        import time
+        t_end = time.monotonic_ns()      # CLOCK_MONOTONIC, the clock the engine processes stamp their events with
         events = []
         if os.path.exists(self.log):
             for l in open(self.log):
@@ -49,7 +51,7 @@ class Sandbox:
                 except Exception:
                     pass
         events.sort(key=lambda e: e["t"])
-        return {"rc": rc, "stdout": so, "stderr": se, "hung": hung, "events": events}
+        return {"rc": rc, "stdout": so, "stderr": se, "hung": hung, "events": events, "t_end": t_end}
 
     def junit(self, name):
         p = os.path.join(self.dir, name + "-junit.xml")
